@@ -476,6 +476,12 @@ func optionSemantics(w *World, r *Report, prop string) {
 			}
 		}
 	}
+	type storeSite struct {
+		fn  *ssa.Function
+		blk *ssa.BasicBlock
+		bs  bindings
+	}
+	storeSites := map[string][]storeSite{}
 	// stores into Configuration / Padding fields in NewConfiguration and the model helpers it calls
 	seenFn := map[*ssa.Function]bool{nc: true}
 	type job struct {
@@ -504,6 +510,7 @@ func optionSemantics(w *World, r *Report, prop string) {
 					return
 				}
 				flow(x.Val, j.bs, get(name), 0, map[ssa.Value]bool{})
+				storeSites[name] = append(storeSites[name], storeSite{j.fn, b, j.bs})
 			case ssa.CallInstruction:
 				if h := x.Common().StaticCallee(); h != nil && pkgOfFunc(h) == w.Model && h.Blocks != nil && !seenFn[h] {
 					seenFn[h] = true
@@ -558,7 +565,30 @@ func optionSemantics(w *World, r *Report, prop string) {
 		case len(fa.unsafe) > 0:
 			r.fail(rule, key, "internal/model/model.go", "the option value is used outside the present edge of its lookup: "+strings.Join(uniqStrings(fa.unsafe), "; "))
 		default:
-			r.pass(rule, key, "internal/model/model.go", "")
+			// the option is honoured whether or not *another* option is written: no store that feeds the field from this option sits
+			// under the "present" edge of a lookup of a different option
+			other := ""
+			for _, ss := range storeSites[f] {
+				for _, t := range membershipTests(ss.fn) {
+					if !isOptions(t.lookup.X, ss.bs) || !edgeDominates(t.branch, t.presentSucc, ss.blk) {
+						continue
+					}
+					idx := t.lookup.Index
+					if p, ok := stripIdentity(idx).(*ssa.Parameter); ok {
+						if a, bound := ss.bs[p]; bound {
+							idx = a
+						}
+					}
+					if k, ok := constString(idx); ok && k != opt {
+						other = k
+					}
+				}
+			}
+			if other != "" {
+				r.fail(rule, key, "internal/model/model.go", fmt.Sprintf("the field %s takes the option %s only on the path where the option %s is written: alone, %s is silently ignored (and spelling out the default of %s changes the generated code)", f, opt, other, opt, other))
+			} else {
+				r.pass(rule, key, "internal/model/model.go", "")
+			}
 		}
 		dkey := fmt.Sprintf("%s defaults to %s", f, optionDefault[f])
 		if fa == nil {
